@@ -99,7 +99,9 @@ PoolC01 == <<
   \* a rule that differs from another one only in the case of a case-sensitive payload is a different rule
   [W("ab") EXCEPT !.mkind = "removeparam", !.mval = "AB"],
   \* the same rule under a second tag is a different rule
-  [W("abb") EXCEPT !.tag = "t1"]
+  [W("abb") EXCEPT !.tag = "t1"],
+  \* a pattern-less catch-all next to a token-less patterned rule with the same option mask (one fuse group)
+  [W("*") EXCEPT !.pos = {"image"}], [W("/a*b") EXCEPT !.pos = {"image"}]
 >>
 ReqsC01 == <<
   MkReq("https", "ab.ba", "/ab/ba/bab", "script", "ab.ba"),
